@@ -68,7 +68,7 @@ func (c07Prop) Count(tier string) int {
 	if tier == "thorough" {
 		return 40000
 	}
-	return 900
+	return 3000
 }
 
 func (c07Prop) Rule() string {
